@@ -27,14 +27,14 @@ def run(tier):
     rng = random.Random(vlib.seed())
     tables = rel.gen_tables(rep, "C03-gent")
     d1 = rel.gen_select(rep, "C03-gen1", 1)
-    nsim, k = (60, 80) if tier == "quick" else (600, 30)
+    nsim, k = (60, 80) if tier == "quick" else (250, 30)
     deep = rel.gen_select(rep, "C03-gensim", 3, simulate=nsim, seed=vlib.seed() + 31, sample_k=k)
     deep = [p for p in deep if p["d"] >= 2]
     qs = d1 + deep
     rng.shuffle(qs)
     if tier == "quick":
         qs = qs[:500]
-    dbs = rel.pick_dbs(tables, rng, 5 if tier == "quick" else 10)
+    dbs = rel.pick_dbs(tables, rng, 5 if tier == "quick" else 6)
     cfgs = lattice(tier, rng)
     base = {"partitions": 1, "batch_size": 2048, "hash_joins": True, "threads": 1}
     run_ = rel.RelRun(rep, "config")
